@@ -51,6 +51,14 @@ fn gen_act(rng: &mut Prng, id: &str) -> Value {
 
 fn gen(args: &Args, emit: &mut dyn FnMut(Value)) {
     let mut rng = Prng::new(args.seed);
+    // diff-directed block (only when the library differs from the baseline; see router_gen::hint_block)
+    for (cfg, mut rules, reqs) in hint_block(&mut rng, (args.n / 4).clamp(40, 2000)) {
+        for r in rules.iter_mut() {
+            let id = r["id"].as_str().unwrap().to_string();
+            r["act"] = gen_act(&mut rng, &id);
+        }
+        emit(json!({"cfg": cfg, "rules": rules, "reqs": reqs}));
+    }
     for i in 0..args.n {
         let cfg = gen_cfg(&mut rng);
         let n = rng.range(1, if i % 4 == 0 { 4 } else { 10 });
